@@ -647,7 +647,12 @@ class Parser(object):
         # On each iteration, look at the next symbol and the current state, and
         # perform the corresponding action.
         while True:
-            if tokens[cursor].symbol not in self.action.get(state(), {}):
+            symbol = tokens[cursor].symbol
+            if symbol == END_OF_INPUT and cursor != len(tokens) - 1:
+                # A client token that uses the end-of-input marker as its symbol is
+                # not the end of input: there is no action for it.
+                symbol = None
+            if symbol not in self.action.get(state(), {}):
                 # Most state/symbol entries would be Errors, so rather than exhaustively
                 # adding error entries, we just check here.
                 if state() in self.default_errors:
@@ -655,7 +660,7 @@ class Parser(object):
                 else:
                     next_action = Error(None)
             else:
-                next_action = self.action[state()][tokens[cursor].symbol]
+                next_action = self.action[state()][symbol]
 
             if isinstance(next_action, Shift):
                 # Shift means that there are no "complete" productions on the stack,
